@@ -185,19 +185,12 @@ def handleW19 (toks : List String) : String :=
     -- reports an error, the watcher prints it and exits)
     match parseHex so, srcs.mapM (fun h => (parseBytes h).map fun _ => parseText h) with
     | some so, some srcs =>
-      let verdict : Outcome → String
-        | .ok _ => "ok"
-        | .diag _ _ => "diag"
-        | .panic _ => "panic"
+      let shw : WatchVerdict → String
+        | .ok => "ok" | .diag => "diag" | .panic => "panic" | .exited => "exited" | .none => "none"
       -- `so` = flag placement (0 off, 1 after, 2 before the subcommand) + 4 × delivery mode
       let so := so % 4
-      let readable := (srcs.takeWhile Option.isSome).filterMap id
-      let rest := srcs.drop readable.length
-      let w := (runSeq (so != 0) true [] readable).map verdict ++
-        (match rest with | [] => [] | _ :: later => "exited" :: later.map fun _ => "none")
-      let f := srcs.map fun s => match s with
-        | some t => verdict (assemble (so != 0) [] t).1
-        | none => "diag"
+      let w := (watchSession (so != 0) [] srcs).map shw
+      let f := srcs.map fun s => shw (checkVerdict (so != 0) s)
       let line := "watch=" ++ ",".intercalate w ++ " fresh=" ++ ",".intercalate f
       "M " ++ line ++ " ;; S " ++ line
     | _, _ => "bad-request"
